@@ -1355,8 +1355,67 @@ def ob_active_stress_operator(dim, nPe):
     return Verdict(DISCHARGED, backend=BACKEND, sub=nd * nd + nd + 1)
 
 
+def _nl_env(sp):
+    g, NPs, Fe = env(sp, "EasyFEA.FEM.Operators.NonLinear")
+    g["np"] = type("NPn", (type(NPs),), dict(arange=staticmethod(np.arange), all=staticmethod(np.all)))(sp)
+    gu, _, _ = env(sp, "EasyFEA.Models._utils")
+    gu["FeArray"], gu["np"] = g["FeArray"], g["np"]
+    r2 = sp.ctx.sqrt_rational(F(2))
+    pvm = extract.compile_fn(extract.get(MUP, "Project_vector_to_matrix"), gu)
+    g["Project_vector_to_matrix"] = lambda v, coef=None: pvm(v, r2 if coef is None else coef)
+    return g, r2
+
+
+def _nl_pieces(sp, dim, nPe, r2, De, dN, S):
+    """Bt = De grad in the interleaved dof order, matrix of the Kelvin-Mandel vector S, and the geometric block I (x) dN^T Smat dN (not yet integrated)"""
+    ns = {2: 3, 3: 6}[dim]
+    nd = nPe * dim
+    Bt = gen.einsum("epskj,epjn->epsnk", De.reshape(NE, NPG, ns, dim, dim), dN).reshape(NE, NPG, ns, nd)
+    Smat = sp.full((NE, NPG, dim, dim), 0)
+    for d in range(dim):
+        Smat[:, :, d, d] = S[:, :, d]
+    for i, j, k in {2: [(0, 1, 2)], 3: [(1, 2, 3), (0, 2, 4), (0, 1, 5)]}[dim]:
+        Smat[:, :, i, j] = S[:, :, k] / r2
+        Smat[:, :, j, i] = S[:, :, k] / r2
+    return Bt, Smat
+
+
+@_guard
+def ob_kelvin_voigt_operator(dim, nPe):
+    """NonLinear.KelvinVoigtDamping: C == t eta sum_p wJ B^T B, R == t eta sum_p wJ B^T Edot, K == t (eta sum_p wJ B^T (Deta grad) + geometric block of eta Edot); nothing when eta == 0 or no velocity"""
+    ns = {2: 3, 3: 6}[dim]
+    sp = gen.Space(dict(wJ=(NE, NPG), dN=(NE, NPG, dim, nPe), De=(NE, NPG, ns, dim * dim), Dt=(NE, NPG, ns, dim * dim), Ed=(NE, NPG, ns)), scalars=("t", "eta"))
+    g, r2 = _nl_env(sp)
+    fns = module_fns(NLP, g, ["einsum", "__block_grad_B", "__geometric_tangent", "__reorder", "__reorder_dofs", "KelvinVoigtDamping"])
+    grp = sx.Mock("groupElem", Ne=NE, dim=dim, nPe=nPe, Get_dN_e_pg=lambda mt: sp.fe("dN"), Get_weightedJacobian_e_pg=lambda mt: sp.fe("wJ"))
+    vel = object()
+    chk = lambda v: None if v is vel else (_ for _ in ()).throw(Refuted("the state is asked for the rate of another velocity", signature="kv:velocity"))
+    state = sx.Mock("state", groupElem=grp, matrixType="rigi", Compute_De=lambda: sp.fe("De"),
+                    Compute_Deta=lambda v: (chk(v), sp.fe("Dt"))[1], Compute_Edot_vec=lambda v: (chk(v), sp.fe("Ed"))[1])
+    if fns["KelvinVoigtDamping"](sx.Mock("material", eta=0.0, thickness=sp.sym("t")), state, vel) != (None, None, None):
+        raise Refuted("a law without viscosity contributes something", signature="kv:none")
+    mat = sx.Mock("material", eta=sp.sym("eta"), thickness=sp.sym("t"))
+    if fns["KelvinVoigtDamping"](mat, state, None) != (None, None, None):
+        raise Refuted("a quasi-static evaluation (no velocity) contributes something", signature="kv:novel")
+    K, R, C = fns["KelvinVoigtDamping"](mat, state, vel)
+    wJ, dN, De, Dt, Ed = (sp.arr(k) for k in ("wJ", "dN", "De", "Dt", "Ed"))
+    t, eta = (sp.sym("t") if dim == 2 else 1), sp.sym("eta")
+    nd = nPe * dim
+    Bt, Smat = _nl_pieces(sp, dim, nPe, r2, De, dN, Ed * eta)
+    beta, _ = _nl_pieces(sp, dim, nPe, r2, Dt, dN, Ed)
+    geo = gen.einsum("ep,epan,epac,epcm->enm", wJ, dN, Smat, dN)
+    Kgeo = gen.einsum("enm,kl->enkml", geo, sp.lift(np.eye(dim, dtype=int))).reshape(NE, nd, nd)
+    check(C, gen.einsum("ep,epsa,epsb->eab", wJ, Bt, Bt) * (t * eta), "damping matrix != t eta sum wJ B^T B", f"kv:C:{dim}:{nPe}")
+    check(R, gen.einsum("ep,epsa,eps->ea", wJ, Bt, Ed) * (t * eta), "viscous residual != t eta sum wJ B^T Edot", f"kv:R:{dim}:{nPe}")
+    check(K, (gen.einsum("ep,epsa,epsb->eab", wJ, Bt, beta) * eta + Kgeo) * t, "configuration tangent of the viscous force", f"kv:K:{dim}:{nPe}")
+    return Verdict(DISCHARGED, backend=BACKEND, sub=2 * nd * nd + nd + 2)
+
+
 def hyper_obligations(prop, tier):
     obs = []
+    for dim, nPe in ((2, 3), (3, 4)) + (((2, 4),) if tier == "thorough" else ()):
+        obs.append(Ob(f"{prop}.gp.kelvinvoigt.{dim}d.n{nPe}", ob_kelvin_voigt_operator, (dim, nPe), "P", (f_(NLP, "KelvinVoigtDamping"),),
+                      clause="C == t eta sum_p wJ B^T B, R == t eta sum_p wJ B^T Edot, K == t (eta sum_p wJ B^T Deta grad + geometric block of eta Edot), for arbitrary De, Deta, Edot; all Ne, nPg", timeout=900))
     for dim, nPe in ((2, 3), (3, 4)) + (((2, 4), (3, 8)) if tier == "thorough" else ()):
         obs.append(Ob(f"{prop}.gp.active.{dim}d.n{nPe}", ob_active_stress_operator, (dim, nPe), "P", (f_(NLP, "ActiveStressTensor"), f_(NLP, "__geometric_tangent"), f_(NLP, "__block_grad_B")),
                       clause="R == t sum_p wJ B^T Sigma_act and K == t sum_p wJ I (x) dN^T Smat dN for an arbitrary active stress at the generic (e, p); nothing when the law has none; all Ne, nPg", timeout=900))
